@@ -208,6 +208,21 @@ func (x *c18Exec) rangeHead(fr *c18Frame, b *cfg.Block) *cfg.Block {
 	switch xv.k {
 	case c18KTable:
 		return x.ruleHead(fr, rs, key, val, b.Succs[0], b.Succs[1])
+	case c18KTags:
+		// the witness tag list
+		if list := x.tagList(xv); fr.iter[rs] < len(list) {
+			i := fr.iter[rs]
+			fr.iter[rs]++
+			if key != nil {
+				fr.env[key] = c18Val{k: c18KInt, i: int64(i)}
+			}
+			if val != nil {
+				fr.env[val] = list[i]
+			}
+			return b.Succs[0]
+		}
+		fr.iter[rs] = 0
+		return b.Succs[1]
 	case c18KSlice, c18KNil:
 		// a literal list: iterate its elements
 		if i := fr.iter[rs]; i < len(xv.elems) {
